@@ -17,20 +17,20 @@ type SentInfo struct {
 	DstPort  uint16
 	HopLimit int
 	// ARP
-	ARPOp     uint16
-	ARPSha    [6]byte
-	ARPSpa    netip.Addr
-	ARPTha    [6]byte
-	ARPTpa    netip.Addr
+	ARPOp  uint16
+	ARPSha [6]byte
+	ARPSpa netip.Addr
+	ARPTha [6]byte
+	ARPTpa netip.Addr
 	// ICMP
 	ICMPType byte
 	EchoID   uint16
 	EchoSeq  uint16
 	// NDP
-	Target   netip.Addr
-	NAFlags  byte
-	OptTLLA  []byte
-	OptSLLA  []byte
+	Target  netip.Addr
+	NAFlags byte
+	OptTLLA []byte
+	OptSLLA []byte
 	// DHCP
 	DHCP     *DHCPInfo
 	UDPBody  []byte
@@ -39,16 +39,16 @@ type SentInfo struct {
 
 // DHCPInfo is a decoded DHCP message.
 type DHCPInfo struct {
-	Op       byte
-	XID      []byte
-	Flags    uint16
-	CIAddr   netip.Addr
-	YIAddr   netip.Addr
-	CHAddr   []byte
-	Options  map[byte][]byte
-	Order    []byte
-	MsgType  byte
-	HasEnd   bool
+	Op      byte
+	XID     []byte
+	Flags   uint16
+	CIAddr  netip.Addr
+	YIAddr  netip.Addr
+	CHAddr  []byte
+	Options map[byte][]byte
+	Order   []byte
+	MsgType byte
+	HasEnd  bool
 }
 
 // ParseDHCP decodes a DHCP message (independent implementation).
@@ -248,8 +248,9 @@ func DecodeSent(f []byte, hostMAC []byte) SentInfo {
 					bad("icmpv6 type %d message is %d bytes, minimum %d", u[0], len(u), min)
 					return nil, false
 				}
-				if s.HopLimit != 255 {
-					bad("neighbour discovery message with hop limit %d, must be 255", s.HopLimit)
+				// the statement demands hop limit 255 for link-local neighbour discovery
+				if (s.DstIP.IsLinkLocalUnicast() || s.DstIP.IsLinkLocalMulticast()) && s.HopLimit != 255 {
+					bad("link-local neighbour discovery message with hop limit %d, must be 255", s.HopLimit)
 				}
 				return u[min:], true
 			}
